@@ -47,13 +47,13 @@ Definition ts_member_ok (m : ts_member) : bool := c15_name_ok C15ts (tm_key m) &
 Definition ts_variant_ok (v : ts_variant) : bool :=
   match v with
   | TVUnit _ wire => c15_lit_str wire
-  | TVTuple _ wire ty _ => c15_lit_str wire && plain (ts_show ty)
+  | TVTuple _ wire ty _ _ => c15_lit_str wire && plain (ts_show ty)
   | TVStruct _ wire ms => c15_lit_str wire && forallb ts_member_ok ms
   end.
 Definition ts_decl_ok (d : ts_decl) : bool :=
   match d with
   | TSInterface _ name gs ms => plain name && forallb plain gs && forallb ts_member_ok ms
-  | TSAlias _ name gs ty _ => plain name && forallb plain gs && plain (ts_show ty)
+  | TSAlias _ name gs ty _ _ => plain name && forallb plain gs && plain (ts_show ty)
   | TSConst name ty value => plain name && plain (ts_show ty) && plain value
   | TSUnitEnum _ name gs vs => plain name && forallb plain gs && forallb (fun v => plain (snd (fst v)) && c15_lit_str (snd v)) vs
   | TSUnion _ name gs tag content vs => plain name && forallb plain gs && plain tag && plain content && forallb ts_variant_ok vs
@@ -95,14 +95,14 @@ Qed.
 
 Definition ts_variant_docs' (v : ts_variant) : list str :=
   match v with
-  | TVUnit docs _ | TVTuple docs _ _ _ => docs
+  | TVUnit docs _ | TVTuple docs _ _ _ _ => docs
   | TVStruct docs _ ms => docs ++ flat_map tm_docs ms
   end.
 
 Lemma ts_variant_decomp tag content v : plain tag = true -> plain content = true -> ts_variant_ok v = true ->
   D (ts_render_variant tag content v) (c15_sites false (ts_variant_docs' v)).
 Proof.
-  intros Ht Hc H. destruct v as [docs wire|docs wire ty opt|docs wire ms]; cbn [ts_variant_ok ts_render_variant ts_variant_docs'] in *;
+  intros Ht Hc H. destruct v as [docs wire|docs wire ty opt nullu|docs wire ms]; cbn [ts_variant_ok ts_render_variant ts_variant_docs'] in *;
     c15_split_andb.
   - eapply Decomp_eq; [ts_decomp ltac:(fail)|]. c15_sites_norm.
   - eapply Decomp_eq; [ts_decomp ltac:(fail)|]. c15_sites_norm.
@@ -114,7 +114,7 @@ Proof. destruct v; reflexivity. Qed.
 
 Theorem ts_decl_decomp d : ts_decl_ok d = true -> D (ts_render_decl d) (c15_sites false (ts_decl_docs d)).
 Proof.
-  intros H. destruct d as [docs name gs ms|docs name gs ty undef|name ty value|docs name gs vs|docs name gs tag content vs];
+  intros H. destruct d as [docs name gs ms|docs name gs ty undef nullu|name ty value|docs name gs vs|docs name gs tag content vs];
     cbn [ts_decl_ok ts_render_decl ts_decl_docs] in *; c15_split_andb.
   - eapply Decomp_eq; [ts_decomp ltac:(apply ts_members_decomp; assumption)|]. c15_sites_norm.
   - eapply Decomp_eq; [ts_decomp ltac:(fail)|]. c15_sites_norm.
